@@ -170,22 +170,26 @@ def run(chk):
         h2 = dh.generate(chk, [tcases[i] for i in two], maxb, maxc, 2, 'histories-with-two-rejects')
         hists += [(two[ci], h) for ci, h in h2 if sum(1 for e in h if e['op'] == 'reject') == 2]
     else:
-        # every history with up to TWO rejected calls for every case; three rejected calls for three representative cases
+        # every history with up to TWO rejected calls for every case; three rejected calls (<= 2 accepted batches) for one representative case
         hists = dh.generate(chk, tcases, maxb, maxc, 2, 'histories-with-two-rejects')
-        three = [i for i, c in enumerate(cases) if c['label'] in ('cpa', 'part-auto64', 'tplb')]
-        h3 = dh.generate(chk, [tcases[i] for i in three], maxb, maxc, 3, 'histories-with-three-rejects')
+        three = [i for i, c in enumerate(cases) if c['label'] in ('cpa',)]
+        h3 = dh.generate(chk, [tcases[i] for i in three], 2, maxc, 3, 'histories-with-three-rejects (<= 2 accepted batches)')
         hists += [(three[ci], h) for ci, h in h3 if sum(1 for e in h if e['op'] == 'reject') == 3]
     hists = [(ci, h) for ci, h in hists if any(e['op'] == 'reject' for e in h)]
-    if tier == 'quick':
-        r2 = random.Random(chk.seed + 1)
-        by = {}
-        for ci, h in hists:
-            key = (ci, tuple((e['op'], e['k']) for e in h if e['op'] == 'reject'), next((i for i, e in enumerate(h) if e['op'] == 'reject'), -1))
-            by.setdefault(key, []).append(h)
-        hists = []
-        for key, hs in sorted(by.items()):
-            r2.shuffle(hs)
-            hists += [(key[0], h) for h in hs[:3]]
+    # TLC enumerates every history; the replay takes, for every (case, sequence of fault kinds, position of the first rejected call), a seeded
+    # sample of the histories of that class (quick: 3, thorough: 4; 1 for the three-reject classes) - the classes are all covered, the accepted batch sizes around them are sampled
+    per = 3 if tier == 'quick' else 4
+    r2 = random.Random(chk.seed + 1)
+    by = {}
+    for ci, h in hists:
+        key = (ci, tuple((e['op'], e['k']) for e in h if e['op'] == 'reject'), next((i for i, e in enumerate(h) if e['op'] == 'reject'), -1))
+        by.setdefault(key, []).append(h)
+    chk.extra['history_classes'] = len(by)
+    chk.extra['histories_enumerated_with_rejects'] = len(hists)
+    hists = []
+    for key, hs in sorted(by.items()):
+        r2.shuffle(hs)
+        hists += [(key[0], h) for h in hs[:(1 if len(key[1]) >= 3 else per)]]
     for ci, h in hists:
         case = cases[ci]
         first_rej = next(i for i, e in enumerate(h) if e['op'] == 'reject')
@@ -289,26 +293,24 @@ def analysis_level(chk, rng):
                     pp = pl.preprocesses()
                     bs = int(rs.randint(2, 5))
                     scared.set_batch_size(bs)
-                    n1, n2 = int(rs.randint(3, 9)), bs + int(rs.randint(1, 5))
+                    n1, n2 = int(rs.randint(3, 9)), 9 + int(rs.randint(0, 5))          # at least two batches of >= 2 traces whatever the effective batch size (<= 7 with the convergence step)
                     ths1, s1, v1, _ = pl.make_set(rs, n1, 6, 2, 0)
                     ths2, s2, v2, _ = pl.make_set(rs, n2, 6, 2, n1)
                     good1, good2 = scared.Container(ths1), scared.Container(ths2)
                     short = scared.Container(ths2, frame=slice(0, 4))                    # other trace length
-                    calls = {'n': 0}
+                    calls = {'real': []}
 
                     @scared.preprocess
                     def boom(traces):
-                        calls['n'] += 1
-                        if calls['n'] == 3:                                               # 1 = trace-size probe, 2 = first batch, 3 = second batch
-                            raise ValueError('preprocess failure in the second batch')
+                        if len(traces) >= 2:                                              # a batch (the trace-size probe reads a single trace)
+                            calls['real'].append(len(traces))
+                            if len(calls['real']) == 2:
+                                raise ValueError('preprocess failure in the second batch')
                         return traces
                     mid = scared.Container(ths2, preprocesses=[boom])
-                    calls1 = {'n': 0}
-
                     @scared.preprocess
                     def boom1(traces):
-                        calls1['n'] += 1
-                        if calls1['n'] == 2:                                              # the first batch
+                        if len(traces) >= 2:                                              # the first batch (the trace-size probe reads a single trace)
                             raise ValueError('preprocess failure in the first batch')
                         return traces
                     first_fail = scared.Container(ths2, preprocesses=[boom1])
@@ -353,10 +355,7 @@ def analysis_level(chk, rng):
                             if not raised:
                                 bad = 'the failing batch makes run() raise'
                                 break
-                            accepted.append((st_[2], st_[3], np.arange(st_[4])))          # the batches before the failing one were accepted
-                            if st_[4] >= len(st_[2]):
-                                accepted.pop()
-                                accepted.append((st_[2], st_[3], np.arange(len(st_[2]))))
+                            accepted.append((st_[2], st_[3], np.arange(calls['real'][0])))   # the batch before the failing one was accepted (its size is the mechanism's business)
                     chk.count(('A', kind, mode, scenario, prec), nontrivial=True)
                     chk.traces_validated += 1
                     if not bad:
